@@ -175,6 +175,7 @@ class Recorder:
         global_used = (not np.array_equal(np_state, np.random.get_state()[1])) or py_state != _random.getstate()
         d = self._describe(model, reporting, nonreporting, unexpected, start, global_used)
         d["_model"] = model
+        model._verif_frames = (reporting, nonreporting, unexpected)
         self.runs.append(d)
         return out
 
@@ -268,13 +269,16 @@ def _bootstrap_run(pre, cur, mp, district=False, aggregates=None, pis=(0.7, 0.9)
             c.get_national_summary_votes_estimates(None, 0, list(pis))
         except Exception:  # noqa: BLE001  (a district election has no default weights; irrelevant here)
             pass
-        m.get_unit_predictions(None, None, "margin", unexpected_units=None)
+        # (asked again with the very frames of the first call, as the client's estimand loop would for a second estimand)
+        rep, non, unx = getattr(m, "_verif_frames", (None, None, None))
+        m.get_unit_predictions(rep, non, "margin", unexpected_units=unx)
     return c
 
 
 def job_scenario(arg):
     """spec -> code: one TLC-exported shape class realised as a real client run (ballast contest ZZ added)."""
-    idx, scen = arg
+    idx, scen = arg[0], arg[1]
+    twin = len(arg) > 2 and arg[2]
     shape = dict(scen["shape"])
     states = sorted(shape) + ["ZZ"]
     need = {s: shape[s][0] + shape[s][1] for s in shape}
@@ -300,13 +304,21 @@ def job_scenario(arg):
             extra.append({"postal_code": s, "geographic_unit_fips": f"{s}900_{9000 + k}", "results_turnout": 700, "results_dem": 400, "results_gop": 280, "percent_expected_vote": 100})
     if extra:
         cur = pd.concat([cur, pd.DataFrame(extra)], ignore_index=True)
+    if twin:
+        # the twin of a shape class: the same sizes, another assignment of the units to the strata and other covariates -
+        # the stream of draws may depend on the sizes only (StreamIsFunctionOfSizes)
+        rs = np.random.default_rng(77 + idx)
+        pre["county_classification"] = rs.permutation(pre["county_classification"].to_numpy())
+        flip = rs.random(len(pre)) < 0.4
+        pre.loc[flip, "county_classification"] = "urban"
+        pre["x1"] = rs.normal(size=len(pre))
     pre = synth.with_margin_features(pre)
     mp = {"B": int(scen["B"])}
     if scen["lambdaGiven"]:
         mp["lambda_"] = 1.0
     with Recorder() as rec:
         try:
-            _bootstrap_run(pre, cur, mp, repeat_calls=(idx % 3 == 0))
+            _bootstrap_run(pre, cur, mp, repeat_calls=(idx % 3 == 0 and not twin))
         except Exception as ex:  # noqa: BLE001
             return {"scenario": scen, "raised": f"{type(ex).__name__}: {str(ex)[:300]}", "runs": []}
     for r in rec.runs:
